@@ -1505,11 +1505,14 @@ package goatlang
 //@   panics_iff p.N < 0 || p.N >= len(p.Tokens)
 //@   ensures p.Token == old(p.Tokens[p.N]) && result == p.Token && p.N == old(p.N) + 1 && p.Tokens == old(p.Tokens) && p.mask == old(p.mask) && p.Depth == old(p.Depth)
 //@
+//@ func panicf
+//@   property C03
+//@   panics_iff true
 //@ func (*token).Append
-//@   property C05
+//@   property C05 C03
 //@   modifies fields(t) elems(t.Tokens)
-//@   allocates elems(*token)
-//@   nopanic
+//@   allocates elems(*token) elems(any)
+//@   panics_iff b == nil || t == nil
 //@   ensures len(t.Tokens) == old(len(t.Tokens)) + 1 && t.Tokens[len(t.Tokens)-1] == b && t.Symbol == old(t.Symbol) && t.Text == old(t.Text) && t.Pos == old(t.Pos)
 //@   ensures forall j int :: 0 <= j && j < old(len(t.Tokens)) ==> t.Tokens[j] == old(t.Tokens[j])
 //@
@@ -1522,10 +1525,11 @@ package goatlang
 //@   invariant p != nil
 //@
 //@ func ledInfix
-//@   property C05
+//@   property C05 C03
 //@   requires p != nil && t != nil
 //@   modifies *
 //@   callsite#leftassoc (*parser).doExpression: arg_rbp == lbpOf(t.Symbol)
+//@   ensures#operands @C03 result == t && len(t.Tokens) >= 1 && t.Tokens[len(t.Tokens)-1] != nil
 //@
 //@ func negateNud
 //@   property C05
